@@ -14,7 +14,12 @@ void torusPolynomialMulByXaiMinusOne(TorusPolynomial *result, int32_t a, const T
 void tLweExtractLweSampleIndex(LweSample *result, const TLweSample *x, const int32_t index, const LweParams *params, const TLweParams *rparams) CONTRACT_tLweExtractLweSampleIndex;
 #endif
 #include "extracted.inc"
+#ifdef VERIF_ARB_FIXED_N
+/* bounded arbiter of the extraction groups: a concrete ring degree (symbolic-size objects written at symbolic indices in unwound loops exhaust memory) */
+static void havoc_ghosts(void) { int32_t a, c, d; g_k = a; g_N = VERIF_BOUND; g_i = c; g_j = d; }
+#else
 static void havoc_ghosts(void) { int32_t a, b, c, d; g_k = a; g_N = b; g_i = c; g_j = d; }
+#endif
 #define H1(fn, ...) void h_##fn(void) { havoc_ghosts(); __VA_ARGS__; VERIF_REACH(); }
 H1(tLweClear, TLweSample *r; const TLweParams *p; tLweClear(r, p))
 H1(tLweCopy, TLweSample *r; const TLweSample *s; const TLweParams *p; tLweCopy(r, s, p))
